@@ -26,6 +26,9 @@ size_t wb_g_slot;          /* arbitrary result slot (ghost index), chosen by the
  *   g_total    = g_pre[n]                            announced number of values
  *   g_allvalid = every entry has a known property id
  *   g_invel    = slot wb_g_slot lies in the 3-slot block of a velocity entry; g_veloff = that block's offset */
+#ifndef MAXP
+#define MAXP 1
+#endif
 size_t g_pre[MAXP + 1];
 size_t g_total, g_veloff;
 unsigned char g_allvalid, g_invel;
@@ -68,6 +71,16 @@ unsigned char g_allvalid, g_invel;
 #define LAYOUT_VALID(p, n) (g_allvalid == (SPEC_CAT(AV, MAXP)(p, (size_t)(n), 0) ? 1 : 0))
 #define LAYOUT_INVEL(p, n) (g_invel == (SPEC_CAT(IV, MAXP)(p, (size_t)(n), wb_g_slot, 0) ? 1 : 0))
 #define LAYOUT_VELOFF(p, n) (SPEC_CAT(VO, MAXP)(p, (size_t)(n), wb_g_slot, 0))
+
+/* FORALL_K(M, args...) : M(k, args...) for every k in [0, MAXP) - unrolled, no quantifier */
+#define UA1(M, b, ...) M(b, __VA_ARGS__)
+#define UA2(M, b, ...) (UA1(M, b, __VA_ARGS__) && UA1(M, (b) + 1, __VA_ARGS__))
+#define UA4(M, b, ...) (UA2(M, b, __VA_ARGS__) && UA2(M, (b) + 2, __VA_ARGS__))
+#define UA8(M, b, ...) (UA4(M, b, __VA_ARGS__) && UA4(M, (b) + 4, __VA_ARGS__))
+#define UA16(M, b, ...) (UA8(M, b, __VA_ARGS__) && UA8(M, (b) + 8, __VA_ARGS__))
+#define UA32(M, b, ...) (UA16(M, b, __VA_ARGS__) && UA16(M, (b) + 16, __VA_ARGS__))
+#define UA64(M, b, ...) (UA32(M, b, __VA_ARGS__) && UA32(M, (b) + 32, __VA_ARGS__))
+#define FORALL_K(M, ...) SPEC_CAT(UA, MAXP)(M, 0, __VA_ARGS__)
 
 /* C globals start at zero: every harness must make its ghost constants arbitrary first */
 #define HAVOC(x) do { __typeof__(x) nd_; (x) = nd_; } while (0)
